@@ -251,7 +251,7 @@ func driveCmdRace(ci int, c *Case, rnd *rand.Rand) []recEvent {
 	if waitOnly {
 		maxCalls = 900
 	}
-	for call := 0; call < maxCalls; call++ {
+	for call := 0; call < maxCalls && len(evs) < 700; call++ {
 		if pending && kind == kUnknown {
 			select {
 			case <-g.started:
@@ -374,6 +374,19 @@ func driveCmdRace(ci int, c *Case, rnd *rand.Rand) []recEvent {
 			obs2 := stepObs{Out: map[string]any{"k": "stuck"}, Writes: []writeRec{}, Fcalls: []callRec{}, Ccalls: []callRec{},
 				Vars: []Val{}, Visits: []int{}}
 			return append(evs, recEvent{Ev: "next", ID: c.ID, R: 1, In: &recIn{Done: true}, Obs: &obs2, T0: ms(t0), T1: ms(time.Now())})
+		}
+	}
+	// the walk stops here (bound reached).  If its last call dispatched a handler that the bridge runs in
+	// its own goroutine, that goroutine may not have logged the invocation yet: it belongs to that call
+	if pending && kind != kWait && dispatchIdx >= 0 && len(evs[dispatchIdx].Obs.Ccalls) == 0 {
+		if kind == kUnknown {
+			select {
+			case <-g.started:
+			case <-time.After(5 * time.Second):
+			}
+		}
+		if calls := g.takeCalls(); len(calls) > 0 {
+			evs[dispatchIdx].Obs.Ccalls = calls
 		}
 	}
 	return evs
